@@ -6,6 +6,7 @@ import AferoVerif.Engine.MemFile
 import AferoVerif.Engine.Contains
 import AferoVerif.Engine.Path
 import AferoVerif.Engine.MemFs
+import AferoVerif.Engine.RoFs
 open AferoVerif
 
 partial def loop {σ : Type} (h : IO.FS.Stream) (out : IO.FS.Stream) (step : σ → String → σ × String) (s : σ) : IO Unit := do
@@ -24,4 +25,5 @@ def main (args : List String) : IO UInt32 := do
   | ["contains"] => loop stdin stdout Engine.Contains.stepLine (); return 0
   | ["path"] => loop stdin stdout Engine.Path.stepLine (); return 0
   | ["memfs"] => loop stdin stdout Engine.MemFs.stepLine MemFs.init; return 0
+  | ["rofs"] => loop stdin stdout Engine.RoFs.stepLine {}; return 0
   | _ => IO.eprintln "usage: driver <engine>"; return 2
